@@ -148,6 +148,12 @@ func (rm *Manager) getCustomizeHookResponse(parent *unstructured.Unstructured) (
 		if err := rm.customizeHook.Call(request, &response); err != nil {
 			return nil, err
 		}
+		for _, relatedRule := range response.RelatedResourceRules {
+			if relatedRule == nil {
+				// A null rule would be dereferenced when selecting related objects.
+				return nil, fmt.Errorf("customize hook response contains a null related resource rule")
+			}
+		}
 
 		rm.customizeCache.Set(customizeKey{parent.GetUID(), parent.GetGeneration()}, &response)
 		return &response, nil
